@@ -363,8 +363,8 @@ def _delegate_c15(repo, rep, tier):
     from . import c15
 
     rep.rule("encode-roundtrip", "encode_msg / decode_msg carry the command-set and data-set bytes unchanged for every length (C15's fragmentation rules)")
-    sub = _R("C15", tier, c15.LEVEL, "")
-    c15.run(repo, sub, tier)
+    from ..delegate import run_lender
+    sub = run_lender(repo, "C17", "C15", tier)
     n = 0
     for o in sub.obligations:
         if o["ok"]:
